@@ -25,16 +25,16 @@ def min_bytes(n):
     return max(1, (n.bit_length() + 7) // 8)
 
 
-def cell_bytes(c: RCell, index_of, size, with_hashes=False, ref_override=None):
+def cell_bytes(c: RCell, index_of, size, with_hashes=False, ref_override=None, bogus=False):
     m = c.mask()
     d1 = len(c.refs) + 8 * c.special + 16 * bool(with_hashes) + 32 * m
     out = bytearray([d1, c.d2()])
     if with_hashes:
         sig = c.sig_levels()
         for i in sig:
-            out += c.H(i)
+            out += bytes([c.H(i)[0] ^ 0x80]) + c.H(i)[1:] if bogus else c.H(i)
         for i in sig:
-            out += c.D(i).to_bytes(2, 'big')
+            out += ((c.D(i) + 5) % 1024 if bogus else c.D(i)).to_bytes(2, 'big')
     out += bits_to_padded_bytes(c.bits)
     for j, r in enumerate(c.refs):
         v = index_of[r.repr_hash()]
@@ -70,10 +70,12 @@ def linear_extension(roots, prio):
 
 
 def encode(roots, magic='generic', size=None, off_bytes=None, has_idx=False, has_cache_bits=False, has_crc=False,
-           with_hashes=(), order=None, cache_bits=(), ref_override=None):
+           with_hashes=(), order=None, cache_bits=(), ref_override=None, bogus_hashes=()):
     """roots: list of RCell. order: list of distinct cells (parents first) or None for the default.
     with_hashes / cache_bits: sets of positions in `order`.
-    ref_override: {(cell position, ref number): index value} — deliberately corrupt reference indexes (negative tests)."""
+    ref_override: {(cell position, ref number): index value} — deliberately corrupt reference indexes (negative tests).
+    bogus_hashes: positions (subset of with_hashes) whose STORED hashes/depths are wrong (first bit flipped / depth + 5): a
+    reader may reject such a bag or ignore the stored values, but must never report them as the cell's hash."""
     if order is None:
         order = topo(roots)
     index_of = {c.repr_hash(): i for i, c in enumerate(order)}
@@ -84,7 +86,7 @@ def encode(roots, magic='generic', size=None, off_bytes=None, has_idx=False, has
     ro = {}
     for (ci, rj), v in (ref_override or {}).items():
         ro.setdefault(ci, {})[rj] = v
-    blobs = [cell_bytes(c, index_of, size, i in with_hashes, ro.get(i)) for i, c in enumerate(order)]
+    blobs = [cell_bytes(c, index_of, size, i in with_hashes, ro.get(i), i in bogus_hashes) for i, c in enumerate(order)]
     payload = b''.join(blobs)
     moff = min_bytes(len(payload) * (2 if has_cache_bits else 1))
     off_bytes = moff if off_bytes is None else off_bytes
